@@ -45,6 +45,9 @@ enum Policy {
     Delayed(u64),
     Never,
     Mixed,
+    /// accept, then do not poll the handle for that many ms (the stream opens and the first
+    /// notifications arrive while the user is away)
+    AcceptThenStall(u64),
 }
 
 #[derive(Clone, Debug, Hash)]
@@ -64,6 +67,9 @@ struct Scen {
     /// node 1 has a dial to a stale (silent) address of node 0 in flight when node 0 connects to
     /// it: the dial fails ~2 s later, in the middle of the storm, for a peer that is connected
     stale_dial: bool,
+    /// every user sends six notifications the moment it sees a stream opened (directed family with
+    /// `AcceptThenStall`: they arrive before the accepting user has polled its opened event)
+    burst_on_open: bool,
 }
 
 impl Scen {
@@ -72,7 +78,7 @@ impl Scen {
             "sync_size": self.sync_size, "async_size": self.async_size, "max_size": self.max_size, "chaos_pct": self.chaos_pct, "storm_ms": self.storm_ms,
             "policy": self.policy.iter().map(|p| format!("{p:?}")).collect::<Vec<_>>(),
             "script": self.script.iter().map(|s| s.iter().map(|(t, k)| json!([t, format!("{k:?}")])).collect::<Vec<_>>()).collect::<Vec<_>>(),
-            "stale_dial": self.stale_dial,
+            "stale_dial": self.stale_dial, "burst_on_open": self.burst_on_open,
             "note": "replay regenerates the scenario from `seed`"})
     }
 }
@@ -138,6 +144,7 @@ async fn driver(
     log: Log,
     mut rx: tokio::sync::mpsc::UnboundedReceiver<DCmd>,
     kill_tx: tokio::sync::mpsc::UnboundedSender<(usize, usize)>,
+    burst_on_open: usize,
 ) {
     let idx_of = |p: &PeerId| peers.iter().position(|x| x == p).unwrap_or(99);
     let mut rng = Rng::new(seed ^ (me as u64 + 1) * 7919);
@@ -206,12 +213,20 @@ async fn driver(
                             unanswered.retain(|x| *x != j);
                             unanswered.push(j);
                         }
+                        Policy::AcceptThenStall(ms) => {
+                            let _ = val_tx.send((j, true));
+                            stop_polling_until = Some(Instant::now() + Duration::from_millis(ms));
+                        }
                     }
                 }
                 Some(NotificationEvent::NotificationStreamOpened { peer, direction, .. }) => {
                     let j = idx_of(&peer);
                     *epoch.entry(j).or_insert(0) += 1;
                     push(&log, L::Opened { peer: j, inbound: matches!(direction, Direction::Inbound) });
+                    // (directed family) send at once, before the other user has looked at its own event
+                    for _ in 0..burst_on_open {
+                        send_one(&mut handle, &peers, me, j, 0, HDR + 8, &epoch, &mut seq, &log).await;
+                    }
                 }
                 Some(NotificationEvent::NotificationStreamClosed { peer }) => push(&log, L::Closed { peer: idx_of(&peer) }),
                 Some(NotificationEvent::NotificationStreamOpenFailure { peer, error }) => push(&log, L::OpenFailure { peer: idx_of(&peer), error: format!("{error:?}") }),
@@ -345,6 +360,7 @@ fn gen(rng: &mut Rng) -> Scen {
         policy: (0..nnodes).map(|_| *rng.pick(&[Policy::Accept, Policy::Accept, Policy::Mixed, Policy::Mixed, Policy::Reject, Policy::Delayed(200), Policy::Never])).collect(),
         script,
         stale_dial: false,
+        burst_on_open: false,
     };
     // directed family (1 in 6): a validation prompt left unanswered across a connection loss and
     // reconnect, answered late (in the quiesce phase) while the new connection is up
@@ -360,6 +376,15 @@ fn gen(rng: &mut Rng) -> Scen {
         s.script[0].sort_by_key(|c| c.0);
     }
     s.stale_dial = rng.chance(0.3);
+    // directed family (1 in 6): the accepting user is away while the stream opens and the opener
+    // sends at once
+    if rng.chance(0.17) {
+        s.burst_on_open = true;
+        s.auto_accept[1] = false;
+        s.policy[1] = Policy::AcceptThenStall(rng.range(150, 500) as u64);
+        s.script[0].push((120, Kind::Open(1)));
+        s.script[0].sort_by_key(|c| c.0);
+    }
     s
 }
 
@@ -483,7 +508,8 @@ async fn run_scenario(s: Scen, exec: ChaosExecutor, lag: LagMonitor) -> RunOut {
     for (i, h) in handles.into_iter().enumerate() {
         let (tx, rx) = tokio::sync::mpsc::unbounded_channel();
         let pol = if i < s.nnodes { s.policy[i] } else { Policy::Accept };
-        tasks.push(tokio::spawn(driver(i, h, peers.clone(), pol, s.seed, logs[i].clone(), rx, kill_tx.clone())));
+        let boo = if i < s.nnodes && s.burst_on_open { 6 } else { 0 };
+        tasks.push(tokio::spawn(driver(i, h, peers.clone(), pol, s.seed, logs[i].clone(), rx, kill_tx.clone(), boo)));
         txs.push(tx);
     }
     lag.take_max_ms();
